@@ -9,6 +9,7 @@ import (
 	"sync"
 
 	"github.com/hashicorp/go-hclog"
+	"github.com/hashicorp/go-plugin/internal/verifhook"
 	"github.com/hashicorp/yamux"
 )
 
@@ -74,6 +75,7 @@ func (m *GRPCClientMuxer) Listener(id uint32, doneCh <-chan struct{}) (net.Liste
 
 	m.acceptMutex.Lock()
 	m.acceptListeners[id] = ln
+	verifhook.Point("cmux.listener", m, int64(id), 0)
 	m.acceptMutex.Unlock()
 
 	return ln, nil
@@ -84,6 +86,7 @@ func (m *GRPCClientMuxer) AcceptKnock(id uint32) error {
 	defer m.acceptMutex.Unlock()
 
 	ln, ok := m.acceptListeners[id]
+	verifhook.Point("cmux.acceptknock", m, int64(id), verifhook.B(ok))
 	if !ok {
 		return fmt.Errorf("no listener for id %d", id)
 	}
